@@ -34,6 +34,7 @@ type SpecEnv struct {
 	site     *siteCtx
 	pure     bool // no program state available
 	lenientLocals bool // a local that is not bound on this path reads as an arbitrary value
+	prev     *State // state at the start of the current loop iteration (for prev(e) in iteration clauses)
 }
 
 type siteCtx struct {
@@ -535,6 +536,21 @@ func (e *Exec) specCall(c *ast.CallExpr, env *SpecEnv) (Val, types.Type) {
 				q = "exists"
 			}
 			return bv(fmt.Sprintf("(%s (%s) %s)", q, strings.Join(binders, " "), bt)), tBool
+		case "prev":
+			// prev(e): value of e when the current loop iteration started (only in `loop k iteration` clauses)
+			if len(c.Args) != 1 || env.prev == nil {
+				return e.specErr("prev(e) is only available in loop iteration clauses")
+			}
+			n := *env
+			n.cur = env.prev
+			saved := e.st
+			e.st = env.prev
+			v, t := e.evalSpec1(c.Args[0], &n)
+			if sl, ok := v.(SliceV); ok && t != nil {
+				v = e.snapshotSlice(sl, t)
+			}
+			e.st = saved
+			return v, t
 		case "old":
 			if len(c.Args) != 1 {
 				return e.specErr("old takes one argument")
